@@ -873,6 +873,17 @@ Proof.
   - now apply udispatch_sound.
   - now apply udispatch_complete.
 Qed.
+(* use of a decoded partial signature by the receive path: the only decodable value that is not an
+   Eth2SignedData is a core.Signature under DutySignature; it is refused with an error (VNotEth2), every
+   other decoded value is handed to VerifyEth2SignedData (VRan) -- [vuse] has no crashing outcome. *)
+Lemma not_eth2_only_signature d b t v :
+  sdispatch V sdec d b = Some (t, v) -> verifier_use t = VNotEth2 -> d = DSignature /\ t = TSignature.
+Proof.
+  intros H U. apply sdispatch_sound in H as [Hin _].
+  destruct d; simpl in Hin; repeat (destruct Hin as [<- | Hin]); try contradiction;
+    try discriminate U; auto.
+Qed.
+
 Lemma validated_usable {Ty} (usable : V -> bool) (r : option (Ty * V)) t v :
   validated V usable r = Some (t, v) -> r = Some (t, v) /\ usable v = true.
 Proof.
